@@ -77,6 +77,18 @@ Section Bins.
   Definition carve_NS (ms : bins) (c14 : T) : bins :=
     filter (fun p => (fst p <=? c14) && (c14 <? snd p)) ms.
 
+  (* ---- remnant bins given directly (nbins is a dict) ----------------- *)
+  (* WD: binfunc(max(m_break[0], WD_mf.lower), WD_mf.upper, n + 1); ValueError if upper <= lower
+     BH: binfunc(BH_mf.lower, min(m_break[-1], BH_mf.upper), n + 1); ValueError if lower >= upper
+     NS: one bin [NS_mass - 0.01, NS_mass + 0.01] (c001 is the literal 0.01) *)
+  Definition dict_WD (sp : spacing) (m_first wd_lo wd_up : T) (n : nat) : res bins :=
+    let bl := if wd_lo <? m_first then m_first else wd_lo in
+    if wd_up <=? bl then Err ValueError else Ok (bins_of_edges (seg_edges sp bl wd_up n)).
+  Definition dict_BH (sp : spacing) (m_last bh_lo bh_up : T) (n : nat) : res bins :=
+    let bu := if m_last <? bh_up then m_last else bh_up in
+    if bu <=? bh_lo then Err ValueError else Ok (bins_of_edges (seg_edges sp bh_lo bu n)).
+  Definition dict_NS (ns c001 : T) : bins := [(ns + (- c001), ns + c001)].
+
   (* ---- lookup ------------------------------------------------------ *)
   (* ind = np.flatnonzero(massbins.lower <= mass)[-1] *)
   Fixpoint last_le (b : bins) (mass : T) (i : nat) (acc : option nat) : option nat :=
